@@ -1,7 +1,7 @@
 (* C07 - Callback lifecycle: open first, close once and last, bounded parallelism.
    Proved over the skeleton of ReadLoop (both roles) regenerated from /repo on every run. *)
 From Coq Require Import List Bool Arith.
-From Gws Require Import Skel.IR Skel.Checker Skel.Monitors Skel.Lifecycle Skel.Obligations.
+From Gws Require Import Skel.IR Skel.Checker Skel.Monitors Skel.Lifecycle Skel.Obligations Skel.Link Skel.GlobalSem.
 Import ListNotations.
 
 (* every complete execution of the read loop - however the connection ends: peer close, local close, protocol error,
@@ -34,6 +34,35 @@ Proof.
   exact (check_final mh mh_eqb mh_eqb_spec mh_step h_bad 200 mh_final g mh0 (H _ Hin)).
 Qed.
 
+(* the GLOBAL bound: one read loop (thread 0, any program of `readers`) and any number of handler goroutines (programs of
+   `handlers`), interleaved in ANY way consistent with the semaphore being a channel of capacity cap (a send is possible
+   only while it holds fewer than cap tokens, a receive only while non-empty) and with goroutine creation (a handler's
+   first action needs a spawn of the read loop that no other goroutine consumed).  At every moment of every such run the
+   number of goroutines that have entered the message callback and not yet released their slot - hence the number inside
+   the callback - is at most cap (Config.ParallelGolimit). *)
+Theorem C07_parallel_bound : forall (prog : nat -> stmt) cap,
+  In (prog 0) readers -> (forall t, t <> 0 -> In (prog t) handlers) ->
+  forall tr g, (forall t, thread_trace (prog t) (proj t tr)) ->
+  sruns cap s0 tr = Some g -> in_handler g <= cap.
+Proof.
+  intros prog cap H0 Hh. apply system_handlers_bounded.
+  - destruct skel_ok_lifecycle as [H _]. rewrite forallb_forall in H. exact (H _ H0).
+  - intros t Ht. destruct skel_ok_handlers as [H _]. rewrite forallb_forall in H. exact (H _ (Hh t Ht)).
+Qed.
+
+(* non-vacuity: capacity 2; the read loop takes a slot and spawns three times - the third acquire has to wait until a
+   handler released; two handlers are inside the callback at that moment *)
+Example C07_parallel_bound_nonvacuous :
+  let rd a := (0, a) in
+  let tr := [rd (ACb CbOpen); rd ASemAcq; rd ASpawn; rd ASemAcq; rd ASpawn; (1, ACb CbMessage); (2, ACb CbMessage)] in
+  (exists g, sruns 2 s0 tr = Some g /\ in_handler g = 2 /\ snobad g)
+  /\ sruns 2 s0 (tr ++ [rd ASemAcq]) = None
+  /\ (exists g, sruns 2 s0 (tr ++ [(1, ASemRel); rd ASemAcq; rd ASpawn; (3, ACb CbMessage)]) = Some g /\ in_handler g = 2).
+Proof.
+  cbv zeta. split; [eexists; split; [vm_compute; reflexivity|split; [reflexivity|split; [reflexivity|intro t; do 3 (destruct t as [|t]; [reflexivity|]); reflexivity]]]|].
+  split; [vm_compute; reflexivity|]. eexists; split; [vm_compute; reflexivity|reflexivity].
+Qed.
+
 Theorem C07_skeleton_obligations :
   (forallb cb_ok readers = true /\ (2 <=? List.length readers) = true)
   /\ (forallb handler_ok handlers = true /\ (1 <=? List.length handlers) = true).
@@ -43,3 +72,4 @@ Print Assumptions C07_lifecycle.
 Print Assumptions C07_lifecycle_prefix.
 Print Assumptions C07_handlers.
 Print Assumptions C07_skeleton_obligations.
+Print Assumptions C07_parallel_bound.
